@@ -40,6 +40,7 @@ def cfg_for_case(rng, k: int) -> GenCfg:
         c.max_depth = 4
         c.p_nested = 0.6
         c.digit_fields = 0.4
+        c.p_same_short_name = 0.5
     elif r == 5:
         c.msg_bits = 64
         c.max_fields = 10
@@ -131,6 +132,9 @@ def run_cases(ctx: Ctx, n_cases: int, n_values: int, judge: Dict[str, bool]) -> 
             rng = __import__("random").Random(f"{ctx.replay['seed']}:{ctx.prop}:{ctx.replay['witness']['shard']}:case:{case_id}")
         cfg = cfg_for_case(rng, case_id)
         root = gen.gen_schema(rng, cfg)
+        if case_id % 8 == 3:
+            gen.add_same_name_shapes(root, rng, ext_ok=cfg.extensible)
+            res.count("cases_with_same_short_name_shapes")
         d = ctx.casedir(case_id)
         wit: Dict[str, Any] = {"case": case_id, "shard": ctx.shard}
         try:
